@@ -116,13 +116,48 @@ def run(tier):
             s0, exc = items[0]
             chk.violation('%s rendering of the decoded instruction %s (%s) raises %s; %d operand/prefix signatures of this mnemonic' % (which, s0, mn, exc, len(items)),
                           dict(case='r ' + s0, rendering=which, exception=exc, mnemonic=mn, count=len(items), key=key))
+    overconsumption(chk, kf)
     asm_text_totality(chk, kf)
     chk.cov['rule'] = ('control-byte space enumerated from the dumped opcode trie: every opcode path x ModRM byte (all 256) x SIB classes (quick: 8 classes; thorough: all 256) x prefix sets '
                        '(none, 66, 67, one further set per opcode in quick; 12 sets in thorough) x 2..6 payload patterns; 1-2 byte dead opcodes; random 1..16-byte strings. '
-                       'For a sample of accepted strings: the exact-length string, every truncation, stream offsets 1..3, both renderings. Non-trivial = string the model decodes')
+                       'For a sample of accepted strings: the exact-length string, every truncation, stream offsets 1..3, both renderings. Over-consumption: every ModRM byte (with a spread of SIB bytes) of 8b / ff / 0f b6, with and without the 67 prefix: reported length <= the length GNU objdump reads, and the exact-length string decodes. Non-trivial = string the model decodes')
     chk.cov['samples'] = [dict(bytes=s, model=m[:160], impl=i[:160]) for s, m, i in list(zip(strings, model, impl))[::max(1, len(strings) // 6)][:6]]
     return chk.finish(assumptions=['the opcode trie, mnemonic records and ModRM/SIB tables are dumped from the running library on every run (tie D); X86Dis.v is a hand transcription of _dis/get_afs/special_opcodes (tie H)',
                                    'the assembler half on arbitrary text (PLY parser) has no Gallina model: not claimed'])
+
+def overconsumption(chk, kf):
+    """'nor consumes bytes beyond the instruction': for every ModRM byte (and, where a SIB byte follows, a spread of SIB bytes) of a
+    plain r/m instruction, with and without the 67 prefix, the length the decoder reports must not exceed the length GNU objdump reads
+    from the same bytes, and the exact-length string must decode (a complete instruction is not reported absent for want of more bytes)"""
+    import objref
+    forms = []
+    for pf in ('', '67'):
+        for opc in ('8b', 'ff', '0fb6'):
+            for modrm in range(256):
+                if opc == 'ff' and ((modrm >> 3) & 7) == 7: continue
+                sibs = [0x00, 0x25, 0x65, 0xa5, 0xe5, 0x24, 0x0d, 0xc8] if (pf == '' and (modrm & 7) == 4 and (modrm >> 6) != 3) else [0x11]
+                for sib in sibs:
+                    forms.append('%s%s%02x%02x' % (pf, opc, modrm, sib) + '2233445566778899')
+    ref = objref.objdump_many(forms, chk.work)
+    impl = run_impl('impl_x86dis.py', forms)
+    exact = []; idx = []
+    bad = {}
+    for k, (h, r, i) in enumerate(zip(forms, ref, impl)):
+        if r is None or '(bad)' in r[1] or r[1].startswith('.byte') or '|' not in i: continue
+        il = int(i.split('|')[0]); rl = r[0]
+        if il > rl:
+            bad.setdefault('overread:%s' % (h[:2] if h.startswith('67') else 'a32'), []).append((h, 'the decoder reports length %d for %s, the reference decoder reads %d bytes (%s)' % (il, h, rl, r[1])))
+        exact.append(h[:2 * rl]); idx.append(k)
+    ex = run_impl('impl_x86dis.py', exact)
+    for h, e in zip(exact, ex):
+        if e == 'None':
+            bad.setdefault('absent-though-complete:%s' % (h[:2] if h.startswith('67') else 'a32'), []).append((h, 'the complete instruction %s (reference decoder: %d bytes) is reported absent' % (h, len(h) // 2)))
+    chk.cov['overconsumption_forms'] = len(forms); chk.cov['evaluations'] = chk.cov.get('evaluations', 0) + len(forms) + len(exact)
+    for key, items in sorted(bad.items()):
+        if key in kf:
+            chk.report_known(key, kf[key]['what'] + ' (%d strings in this run)' % len(items)); continue
+        h, what = items[0]
+        chk.violation('%s; %d strings of class %s' % (what, len(items), key), dict(case=h, key=key, count=len(items), strings=[x[0] for x in items[:20]]))
 
 def asm_lines():
     """deterministic set of assembler inputs: structured lines with boundary / oversized literals, and token sequences up to 8 tokens"""
